@@ -150,6 +150,7 @@ type zzMP struct {
 	T           int
 	mIdx        int
 	parserCalls int
+	csink       *zzSink
 	t           int // current event index (nondet naming)
 }
 
@@ -215,6 +216,16 @@ func zzMkMP(N int) *zzMP {
 		conf:           &recorder.RecorderConfig{},
 	}
 	h.mp.parseFrame = h.parse
+	if zzParam("CR") == 1 {
+		// the continuous recorder runs alongside (any phase of its current file): the
+		// motion recording's behaviour must not depend on it
+		h.csink = &zzSink{}
+		crF := zzInt("mp.crFrames", 0)
+		zzAssume(0 <= crF && crF <= h.maxF)
+		h.csink.open = crF > 0
+		h.csink.last = n - 1
+		h.mp.constantRecorder, h.mp.constantRecording, h.mp.crFrames = h.csink, true, crF
+	}
 	// the detector has seen frames already (so that a reset has something to reset)
 	det := h.mp.motionDetector
 	det.backgroundFrames, det.count = 3, 7
